@@ -94,7 +94,57 @@ RULE = (
     'received and answered and a chat is written: every registered '
     'listener must get each matching packet exactly once, early before '
     'ordinary, one thread\'s registrations in its program order (the order '
-    'between the two threads is free).  Seeds change the packet '
+    'between the two threads is free).  '
+    'Histories in which the connection ends while packets are in flight '
+    '(x histories; judged packet by packet, not by the linear reference '
+    'model): listener = (filter, action), action in {-, ignore, '
+    'disconnect = the listener calls connection.disconnect(), disconnect_now '
+    '= it calls disconnect(immediate=True)}, acting for the primary packet '
+    'P* only; filters P, C, U (quick) / all six (thorough).  (xa) a listener '
+    'ends the connection: all (ie, io) with <= 1 listener each and every '
+    'ordered pair inside ie and inside io over filters x actions, at least '
+    'one of them disconnecting, the other classes empty or plain P (757, '
+    'and every version in thorough; 47 and 340 quick: the <= 1 sets with '
+    'plain P outgoing listeners); histories: P* = login success alone, and '
+    'P* = keep-alive / position-and-look (packets with a built-in reaction) '
+    '/ unknown id (without) delivered as the bursts [P*], [P*, P] and [P, '
+    'P*, P] (in the last a reply is queued when the listener disconnects: '
+    'disconnect() flushes it - its outgoing listeners fire - and '
+    'disconnect(immediate=True) drops it).  (xc) send faults: the server '
+    'sends its Disconnect packet and closes, inside the client\'s send '
+    'call, on the k-th play packet it decodes, and every later send of the '
+    'client is refused (vnet send_after_close = raise) or the first send '
+    'call is accepted and the next refused (ok_once: a frame cut after its '
+    'length prefix); histories: 2 queued chats k in {1,2}, 3 queued chats k '
+    'in {1,2}, one queued chat plus a keep-alive whose reply is queued '
+    'behind it k in {1,2}; so the write of packet k+1 fails in the loop '
+    'lap in which the Disconnect packet is readable, and packet k+2 is '
+    'still queued when the reaction to Disconnect calls disconnect(); '
+    'outgoing listeners: all (oe, oo) with <= 1 each and every ordered pair '
+    'inside oe and inside oo over filters x {-, ignore} (P* = the packet '
+    'that meets the fault), incoming listeners none or plain P (757 / '
+    'thorough; 47 and 340 quick: <= 1 sets, plain P incoming).  Oracle of '
+    'the x histories: an incoming packet the client has read completely '
+    '(bytes consumed from the stream >= end of its frame) reaches every '
+    'matching ie listener, then every matching io listener, registration '
+    'order, once each, cut only by an ignore; a packet never read '
+    'completely reaches nobody; an outgoing packet: its matching oe '
+    'listeners not at all or once each in order (once each, before the '
+    'first byte, when its complete frame is on the wire), no byte if one '
+    'ignored; its matching oo listeners once each after the bytes if the '
+    'complete frame is on the wire and not at all otherwise; if the oe '
+    'listeners ran without ignore and the frame is not on the wire a '
+    'refused send must follow.  Schedules of a disconnect during dispatch: '
+    'on a connection in the play state with listeners E (ie), O (io), OE '
+    '(oe), OO (oo) the server\'s packet (keep-alive / unknown id) becomes '
+    'readable and a user thread calls disconnect() / '
+    'disconnect(immediate=True) while the window is open; all schedules up '
+    'to preemption bound 1 (quick) / 2 (thorough): if the client read the '
+    'whole packet E and O are called once each, E first, else neither; the '
+    'reply\'s OE at most once before its first byte, OO once after its last '
+    'byte iff it was written completely; the exploration must contain a '
+    'schedule in which disconnect() returns between E and O and one in '
+    'which the packet is never read.  Seeds change the packet '
     'field values and the order of tasks only.  state = distinct (protocol, '
     'history, per-packet call log with state seen at call time, server '
     'receipts, final state); transitions = listener calls + reactions + '
@@ -120,6 +170,27 @@ ASSUMPTIONS = [
     'points finer than source lines inside register_packet_listener / '
     'PacketListener.__init__; registration concurrent with a dispatch in '
     'progress is not explored (no packet arrives while the window is open)',
+    'reading of the statement for a disconnect() that overtakes a dispatch '
+    '(from a listener of that packet or from another thread): "for every '
+    'incoming packet ... each listener ... runs exactly once" has one '
+    'exception only, the ignore signal; so the remaining early listeners '
+    'and the ordinary listeners of a packet the client has read are still '
+    'owed after the connection was closed.  "Incoming packet" = a packet '
+    'the client has read completely; packets behind the end of the '
+    'connection that were never read owe nothing.  Whether the built-in '
+    'reaction still happens for the overtaken packet is NOT judged (the '
+    'tree skips it on purpose: it would act on a closed or on the next '
+    'connection), nor the connection state the listeners see there',
+    'x histories with send faults: the statement says nothing about how '
+    'often a packet whose write failed is attempted, so "once each" is read '
+    'as: early outgoing listeners at most once each per packet (zero for a '
+    'packet that is never attempted), ordinary outgoing listeners exactly '
+    'for the packets whose complete frame reached the socket; exceptions '
+    'reported by the networking thread and whether the thread survives are '
+    'not judged there (C11/C14), only recorded as outcome classes; '
+    'disconnecting listeners are incoming listeners only (an outgoing '
+    'listener that closes the socket it is about to be written to is '
+    'outside what the statement describes)',
 ]
 
 GROUPS = ('ie', 'io', 'oe', 'oo')
@@ -137,6 +208,7 @@ PATH = {
     'cb.LoginSuccess': 'clientbound.login.LoginSuccessPacket',
     'cb.KeepAlive': 'clientbound.play.KeepAlivePacket',
     'cb.PPL': 'clientbound.play.PlayerPositionAndLookPacket',
+    'cb.Disconnect': 'clientbound.play.DisconnectPacket',
     'sb.HandShake': 'serverbound.handshake.HandShakePacket',
     'sb.LoginStart': 'serverbound.login.LoginStartPacket',
     'sb.PluginResponse': 'serverbound.login.PluginResponsePacket',
@@ -150,7 +222,8 @@ PATH = {
 KEYFIELD = {
     'cb.SetCompression': 'threshold', 'cb.PluginRequest': 'message_id',
     'cb.LoginSuccess': 'Username', 'cb.KeepAlive': 'keep_alive_id',
-    'cb.PPL': 'x', 'Packet': 'id', 'sb.HandShake': 'next_state',
+    'cb.PPL': 'x', 'cb.Disconnect': 'json_data', 'Packet': 'id',
+    'sb.HandShake': 'next_state',
     'sb.LoginStart': 'name', 'sb.PluginResponse': 'message_id',
     'sb.KeepAlive': 'keep_alive_id', 'sb.TeleportConfirm': 'teleport_id',
     'sb.PositionAndLook': 'x', 'sb.Chat': 'message',
@@ -210,7 +283,10 @@ def concrete(kind, v, rank):
 
 def filter_types(flt, group, kind, v, rank):
     """Symbolic names of the types a listener registers."""
-    cin, cout = concrete(kind, v, rank)
+    return types_for(flt, group, *concrete(kind, v, rank))
+
+
+def types_for(flt, group, cin, cout):
     if group[0] == 'i':
         c, u = cin, cout
     else:
@@ -845,6 +921,583 @@ def run_case(ctx, kind, v, cfg, seed):
 
 
 # ---------------------------------------------------------------------------
+# histories in which the connection ends while packets are in flight
+#   xa: a listener changes the connection's state - it calls disconnect()
+#   xc: the server kicks the client (Disconnect packet, close) on the k-th
+#       play packet it receives and the environment fails the later writes
+# The linear reference model above does not apply (whether a packet behind
+# the end is still read / attempted is nobody's promise); the judge below
+# decides packet by packet, from the statement only.
+
+ACTIONS = ('-', 'ign', 'disc', 'disc_now')
+X_FILTERS = ('P', 'C', 'U')
+X_PLAIN = ('P', '-')
+X_KICK = '{"text":"kicked"}'
+XA_SHAPES = (('success', 'alone'),) + tuple(
+    (s, d) for s in ('keepalive', 'ppl', 'unknown')
+    for d in ('alone', 'first', 'second'))
+XC_ENVS = ('ok_once', 'raise')
+XC_SHAPES = tuple((h, k, e) for h, ks in (('chats2', (1, 2)),
+                                          ('chats3', (1, 2)),
+                                          ('ka+chat', (1, 2)))
+                  for k in ks for e in XC_ENVS)
+XC_CHATS = ('one', 'two', 'three')
+# vacuity guards that every run must hit (the rest: ctx.extra['x_classes'])
+X_NEED = (
+    'xa: ie listener calls disconnect()',
+    'xa: ie listener calls disconnect(immediate=True)',
+    'xa: io listener calls disconnect()',
+    'xa: io listener calls disconnect(immediate=True)',
+    'xa: listeners behind a disconnecting ie listener still run (ordinary '
+    'after early)',
+    'xa: early listener disconnects on a packet with a built-in reaction',
+    'xa: listener disconnects on a packet without built-in reaction',
+    'xa: queued reply flushed by the listener\'s disconnect(), its outgoing '
+    'listeners fire',
+    'xc: early outgoing listeners ran, the write was refused (ok_once): no '
+    'ordinary outgoing listener',
+    'xc: early outgoing listeners ran, the write was refused (raise): no '
+    'ordinary outgoing listener',
+    'xc: matching ordinary outgoing listener not called for a packet that '
+    'was not written',
+    'xc: packet left in the queue is flushed into the dead peer by '
+    'disconnect()',
+    'xc: write fault forgiven by the disconnect packet (raise)',
+)
+
+
+def x_acts(spec):
+    return {'-': '', 'ign': '!', 'disc': '/d', 'disc_now': '/D'}[spec[1]]
+
+
+def x_show_cfg(cfg):
+    return ' '.join('%s=[%s]' % (g, ','.join(s[0] + x_acts(s)
+                                             for s in cfg[g]))
+                    for g in GROUPS)
+
+
+def x_stimulus(stim, i, vals):
+    """-> (server event, packet key) of the i-th stimulus of a kind."""
+    if stim == 'keepalive':
+        return ('keepalive', vals['N'][i]), ('cb.KeepAlive', vals['N'][i])
+    if stim == 'ppl':
+        return (('ppl', vals['X'][i], 64.0, 0.5, 90.0, 10.0, 0,
+                 vals['TID'][i]), ('cb.PPL', vals['X'][i]))
+    return (('raw', UNKNOWN_IDS[i], b'\x01\x02\x03'),
+            ('Packet', UNKNOWN_IDS[i]))
+
+
+def x_plan(sc, rank):
+    """-> dict(cin, cout, primary, ...) of a scenario."""
+    v, vals = sc['version'], values(sc['seed'])
+    if sc['family'] == 'xa':
+        stim, delivery = sc['stim'], sc['delivery']
+        cin, cout = concrete(stim, v, rank)
+        if stim == 'success':
+            return {'cin': cin, 'cout': cout, 'events': [],
+                    'primary': {('cb.LoginSuccess', 'vfuser')}}
+        idx = {'alone': (1,), 'first': (1, 2), 'second': (0, 1, 2)}[delivery]
+        events = [x_stimulus(stim, i, vals) for i in idx]
+        return {'cin': cin, 'cout': cout, 'events': events,
+                'primary': {x_stimulus(stim, 1, vals)[1]}}
+    hist, k = sc['hist'], sc['kick']
+    if hist == 'ka+chat':
+        n0 = vals['N'][0]
+        packets = [('sb.Chat', XC_CHATS[0]), ('sb.KeepAlive', n0)]
+    else:
+        packets = [('sb.Chat', m) for m in XC_CHATS[:int(hist[-1])]]
+    prim = packets[k] if k < len(packets) else packets[k - 1]
+    return {'cin': 'cb.Disconnect', 'cout': prim[0], 'packets': packets,
+            'primary': {prim}}
+
+
+class KickServer(StepServer):
+    """Sends its Disconnect packet and closes as soon as it has decoded the
+    kick_at-th play packet of the client (inside the client's send call)."""
+    kick_at = None
+
+    def _play(self, pid, r, payload):
+        RefServer._play(self, pid, r, payload)
+        if self.kick_at is not None and len(self.play_rx) == self.kick_at:
+            self.play(('disconnect', X_KICK))
+
+
+def x_body(W, sc, plan):
+    S, C = W.S, W.C
+    cl = classes()
+    real, rev = cl['real'], cl['rev']
+    v, cfg = sc['version'], sc['cfg']
+    cin, cout, primary = plan['cin'], plan['cout'], plan['primary']
+
+    def factory(vconn):
+        srv = KickServer(vconn, protoids.ids, W.rank)
+        W.servers.append(srv)
+        return srv
+    W.net.listen('srv', 25565, factory)
+    conn = W.connection(allowed_versions={v})
+    problems = []
+
+    def pkey(p):
+        name = rev.get(type(p))
+        if name is None:
+            return ('?' + type(p).__module__.rsplit('.', 2)[-2] + '.'
+                    + type(p).__name__, None)
+        return (name, getattr(p, KEYFIELD[name], None))
+
+    def make(g, i, act):
+        def callback(packet):
+            k = pkey(packet)
+            S.event('L', g, i, k)
+            if k not in primary:
+                return
+            if act == 'ign':
+                raise C.IgnorePacket
+            if act in ('disc', 'disc_now'):
+                S.event('X', 'disconnect', g, i)
+                try:
+                    conn.disconnect(immediate=(act == 'disc_now'))
+                except Exception as e:      # not this property's business
+                    S.event('X', 'disconnect raised', type(e).__name__)
+        return callback
+
+    def guarded(what, fn, *a, **kw):
+        try:
+            fn(*a, **kw)
+        except Exception as e:
+            problems.append(('api-exception', '%s raised %s: %s'
+                             % (what, type(e).__name__, e)))
+            return False
+        return True
+    for i in range(2):
+        for g in REG_ORDER:
+            if i < len(cfg[g]):
+                flt, act = cfg[g][i]
+                guarded('register_packet_listener',
+                        conn.register_packet_listener, make(g, i, act),
+                        *[real[t] for t in types_for(flt, g, cin, cout)],
+                        early=(g[1] == 'e'), outgoing=(g[0] == 'o'))
+    incoming = []
+    srv = vc = None
+
+    def sent(key):
+        incoming.append((key, len(vc.frame_ends) - 1))
+    if guarded('connect', conn.connect):
+        W.settle()
+    if W.servers:
+        srv, vc = W.servers[0], W.net.conns[0]
+    if srv is None:
+        if not problems:
+            raise ToolError('x set-up: connect() returned and no connection '
+                            'was opened')
+        return {'problems': problems, 'diverged': True}
+    xa = sc['family'] == 'xa'
+    ok = srv.state == 'login' and srv.login_name is not None
+    if ok:
+        srv.step(('success',))
+        sent(('cb.LoginSuccess', 'vfuser'))
+        if not (xa and sc['stim'] == 'success'):
+            W.settle()
+            ok = type(conn.reactor).__name__ == 'PlayingReactor' and \
+                not S.stuck() and bool(S.live())
+    if not ok:
+        # no listener acts before P*: the plain login is the main families'
+        # business; judged like a diverging step there
+        problems.append(('diverged', 'the login with passive listeners did '
+                         'not reach the play state: server state %r, login '
+                         'name %r, errors %r, reactor %s'
+                         % (srv.state, srv.login_name, srv.errors[:2],
+                            type(conn.reactor).__name__)))
+        return {'problems': problems, 'diverged': True}
+    if xa:
+        for ev, key in plan['events']:     # one burst
+            srv.play(ev)
+            sent(key)
+    else:
+        srv.kick_at = sc['kick']
+        guarded('write_packet', conn.write_packet,
+                real['sb.Chat'](message=XC_CHATS[0]))
+        if sc['hist'] == 'ka+chat':
+            ev, key = x_stimulus('keepalive', 0, values(sc['seed']))
+            srv.play(ev)
+            sent(key)
+        else:
+            for m in XC_CHATS[1:int(sc['hist'][-1])]:
+                guarded('write_packet', conn.write_packet,
+                        real['sb.Chat'](message=m))
+    W.settle()
+    if srv.closed:                          # the kick was the last frame
+        sent(('cb.Disconnect', X_KICK))
+    W.settle()
+    return {
+        'log': list(S.log), 'problems': problems, 'c2s': bytes(vc.c2s),
+        'frames': list(srv.frames), 'play_rx': list(srv.play_rx),
+        'errors': list(srv.errors), 'incoming': incoming,
+        'consumed': vc.consumed, 'frame_ends': list(vc.frame_ends),
+        'kicked': bool(srv.closed),
+        'thread_exc': sorted(type(a.exc).__name__ for a in S.agents
+                             if a.exc is not None),
+        'conn_exc': None if conn.exception is None
+        else type(conn.exception).__name__,
+        'thread_alive': bool(S.live()),
+    }
+
+
+def x_project(obs, v, rank):
+    """-> ({packet: [('L', class, index) | ('wire',)]}, {packet: number of
+    complete frames}, {packet: log position of its last event}, positions of
+    refused sends, number of send calls that belong to no complete frame)."""
+    c2s = obs['c2s']
+    bounds, bodies, pos = [], [], 0
+    while pos < len(c2s):
+        r = Reader(c2s[pos:])
+        try:
+            n = r.varnum(3)
+            body = r.take(n)
+        except (Short, Malformed):
+            break
+        pos += r.pos
+        bounds.append(pos)
+        bodies.append(body)
+    keys = []
+    for i, body in enumerate(bodies):
+        if i < len(obs['frames']):
+            keys.append(frame_key(obs['frames'][i], v, rank))
+            continue
+        # the server had closed and no longer decodes: plain format (the x
+        # histories never switch compression on)
+        r = Reader(body)
+        try:
+            pid = r.varnum(5)
+            keys.append(frame_key(('play', pid, r.rest()), v, rank))
+        except (Short, Malformed):
+            keys.append(('?undecodable frame', i))
+    complete = {}
+    for k in keys:
+        complete[k] = complete.get(k, 0) + 1
+    seq, lastpos, fails, partial = {}, {}, [], 0
+    off, last_wire = 0, {}
+    for i, ev in enumerate(obs['log']):
+        if ev[0] == 'L':
+            _, g, idx, k = ev[:4]
+            seq.setdefault(k, []).append(('L', g, idx))
+            lastpos[k] = i
+            last_wire.pop(k, None)
+        elif ev[0] == 'send' and ev[1] == 0:
+            fi = sum(1 for b in bounds if b <= off)
+            off += len(ev[3])
+            if fi >= len(keys):
+                partial += 1
+                continue
+            k = keys[fi]
+            if last_wire.get(k) != fi:
+                seq.setdefault(k, []).append(('wire',))
+                last_wire[k] = fi
+            lastpos[k] = i
+        elif ev[0] == 'send-fail':
+            fails.append(i)
+    return seq, complete, lastpos, fails, partial
+
+
+def x_show(s):
+    return '[' + ', '.join('wire' if e[0] == 'wire' else '%s%d' % e[1:3]
+                           for e in s) + ']'
+
+
+def x_stage(cfg, g, pkt, cin, cout, sup, primary, flags=None):
+    """Listeners of class g owed to packet pkt: registration order, each
+    matching one once; -> (calls, an ignore was signalled)."""
+    out = []
+    for i, (flt, act) in enumerate(cfg[g]):
+        if any(t in sup[pkt[0]] for t in types_for(flt, g, cin, cout)):
+            out.append(('L', g, i))
+            if pkt in primary and act == 'ign':
+                return out, True
+            if pkt in primary and act != '-' and flags is not None:
+                flags.add((g, i, act))
+    return out, False
+
+
+def x_judge(sc, plan, obs, rank):
+    """-> ([(check name, explanation)], facts for the vacuity guards)."""
+    v, cfg = sc['version'], sc['cfg']
+    cin, cout, primary = plan['cin'], plan['cout'], plan['primary']
+    sup = classes()['sup']
+    out = list(obs['problems'])
+    facts = set()
+    if obs.get('diverged'):
+        return out[:1], facts, None
+    seq, complete, lastpos, fails, partial = x_project(obs, v, rank)
+
+    def diff(k, want, got, why):
+        wc = [e for e in want if e[0] == 'L']
+        gc = [e for e in got if e[0] == 'L']
+        if wc == gc:
+            name = 'wire-order' if ('wire',) in want and ('wire',) in got \
+                else 'write-suppression'
+        elif sorted(wc) == sorted(gc):
+            name = 'call-order'
+        else:
+            name = 'call-set'
+        out.append((name, 'packet %r (%s): expected %s, observed %s'
+                    % (k, why, x_show(want), x_show(got))))
+    # incoming: every packet the client has read completely is dispatched
+    # to every matching listener once, early class first, unless one
+    # signalled ignore; a packet it never read owes nothing
+    inkeys = set()
+    ended = None        # a listener of this packet ended the connection
+    xpos = next((i for i, e in enumerate(obs['log']) if e[0] == 'X'), None)
+    for k, fi in obs['incoming']:
+        inkeys.add(k)
+        read = obs['consumed'] >= obs['frame_ends'][fi]
+        acts = set()
+        want, ig = x_stage(cfg, 'ie', k, cin, cout, sup, primary, acts)
+        early_acts = set(acts)
+        if not ig:
+            want = want + x_stage(cfg, 'io', k, cin, cout, sup, primary,
+                                  acts)[0]
+        got = seq.get(k, [])
+        if not read:
+            facts.add('a packet behind the end of the connection is never '
+                      'read (owes nothing)')
+            if got:
+                diff(k, [], got, 'never read by the client')
+            continue
+        if got != want:
+            diff(k, want, got,
+                 'read by the client; a disconnect() from a listener does '
+                 'not signal ignore' if acts else 'read by the client')
+            continue
+        if acts:
+            ended = k
+            for g, i, act in sorted(acts):
+                facts.add('%s listener calls disconnect(%s)'
+                          % (g, 'immediate=True' if act == 'disc_now'
+                             else ''))
+                later = want[want.index(('L', g, i)) + 1:]
+                if later:
+                    facts.add('listeners behind a disconnecting %s listener '
+                              'still run%s' % (
+                                  g, ' (ordinary after early)'
+                                  if g == 'ie' and later[-1][1] == 'io'
+                                  else ''))
+            if early_acts and k[0] in ('cb.KeepAlive', 'cb.PPL'):
+                facts.add('early listener disconnects on a packet with a '
+                          'built-in reaction')
+            if k[0] == 'Packet':
+                facts.add('listener disconnects on a packet without '
+                          'built-in reaction')
+        elif ig and ended is None and sc['family'] == 'xa':
+            facts.add('disconnecting listener not reached (an earlier one '
+                      'ignores)')
+    # outgoing: early listeners before the bytes and at most once each,
+    # ordinary ones after the bytes of a packet that was written completely
+    for k in sorted(set(seq) | set(complete), key=repr):
+        if k in inkeys:
+            continue
+        if k[0] not in sup or k[0][:2] != 'sb':
+            out.append(('unexpected-packet', 'listener calls or frames for '
+                        '%r, which is not part of the history: %s'
+                        % (k, x_show(seq.get(k, [])))))
+            continue
+        E, ig = x_stage(cfg, 'oe', k, cin, cout, sup, primary)
+        O, _ = x_stage(cfg, 'oo', k, cin, cout, sup, primary)
+        got = seq.get(k, [])
+        n = complete.get(k, 0)
+        if ig:
+            if got != E and got:        # (never attempted: owes nothing)
+                diff(k, E, got, 'an early outgoing listener signals '
+                     'ignore')
+            continue
+        if n:
+            want = E + [('wire',)] + O
+            if got != want:
+                diff(k, want, got, '%d complete frame%s on the wire'
+                     % (n, '' if n == 1 else 's'))
+            elif ended is not None and xpos is not None and \
+                    lastpos[k] > xpos and E and O:
+                facts.add('queued reply flushed by the listener\'s '
+                          'disconnect(), its outgoing listeners fire')
+            continue
+        # not (completely) written
+        if got and got != E:
+            diff(k, E, got, 'not written completely: early outgoing '
+                 'listeners at most once each, ordinary ones not at all')
+            continue
+        if got and not any(f > lastpos[k] for f in fails):
+            out.append(('write-suppression', 'packet %r: the early outgoing '
+                        'listeners ran %s, none signalled ignore, no send '
+                        'was refused afterwards, and yet the packet is not '
+                        'on the wire' % (k, x_show(got))))
+            continue
+        if got:
+            facts.add('early outgoing listeners ran, the write was refused '
+                      '(%s): no ordinary outgoing listener'
+                      % sc.get('env', '-'))
+            if O:
+                facts.add('matching ordinary outgoing listener not called '
+                          'for a packet that was not written')
+    if sc['family'] == 'xc':
+        pk = plan['packets']
+        behind = [p for p in pk[sc['kick']:] if p in seq]
+        if len(behind) > 1:
+            facts.add('packet left in the queue is flushed into the dead '
+                      'peer by disconnect()')
+        if fails and obs['kicked'] and not obs['thread_exc'] \
+                and not obs['conn_exc']:
+            facts.add('write fault forgiven by the disconnect packet (%s)'
+                      % sc['env'])
+        if partial:
+            facts.add('frame cut after its length prefix (ok_once)')
+    if obs['errors']:
+        out.append(('server-errors', 'the reference server could not accept '
+                    'what the client sent: %r' % obs['errors'][:2]))
+    seen, res = set(), []
+    for name, text in out:
+        if name not in seen:
+            seen.add(name)
+            res.append((name, text))
+    return res, facts, seq
+
+
+def x_describe(sc):
+    if sc['family'] == 'xa':
+        return ('listener-disconnect history %s/%s (burst: %s)'
+                % (sc['stim'], sc['delivery'],
+                   {'alone': 'P*', 'first': 'P* P', 'second': 'P P* P'}[
+                       sc['delivery']]))
+    return ('server-kick history %s: the server sends Disconnect and closes '
+            'on the %d. play packet it receives; a send to the closed peer '
+            'is answered %s' % (sc['hist'], sc['kick'], sc['env']))
+
+
+def run_x(ctx, sc):
+    rank = harness.setup()['rank']
+    sc = dict(sc, cfg={g: tuple((str(s[0]), str(s[1])) for s in sc['cfg'][g])
+                       for g in GROUPS})
+    plan = x_plan(sc, rank)
+    kw = {'send_after_close': sc['env']} if sc['family'] == 'xc' else {}
+    x = harness.run(lambda W: x_body(W, sc, plan), horizon=200000,
+                    seed=sc['seed'], **kw)
+    ctx.count()
+    ctx.traces += 1
+    tag = sc['family']
+    shape = '%s %s/%s' % (tag, sc['stim'], sc['delivery']) if tag == 'xa' \
+        else '%s %s kick=%d %s' % (tag, sc['hist'], sc['kick'], sc['env'])
+    if x.failure is not None:
+        res, facts, seq = [('hang', 'the client %s: %s' % x.failure)], (), {}
+    else:
+        res, facts, seq = x_judge(sc, plan, x.result, rank)
+    if x.failure is None and seq is not None:
+        obs = x.result
+        ctx.transitions += sum(len(s) for s in seq.values())
+        ctx.state((sc['version'], shape, sorted(seq.items(), key=repr),
+                   obs['play_rx'], obs['thread_alive']))
+        if any(any(e[0] == 'L' for e in seq.get(p, ()))
+               for p in plan['primary']):
+            ctx.note((shape, sc['version'], x_show_cfg(sc['cfg'])))
+        ctx.outcome('%s: thread %s, exceptions %s/%s%s' % (
+            shape, 'alive' if obs['thread_alive'] else 'ended',
+            ','.join(obs['thread_exc']) or '-', obs['conn_exc'] or '-',
+            ''.join(', listener\'s disconnect() raised %s' % e[2]
+                    for e in obs['log']
+                    if e[:2] == ('X', 'disconnect raised'))))
+    if not res:
+        # detailed guards are collected into ctx.extra['x_classes'] by run()
+        for f in list(facts) + ['v%d %s' % (sc['version'], shape)]:
+            f = 'xfact %s: %s' % (tag, f)
+            ctx.extra[f] = ctx.extra.get(f, 0) + 1
+    case = dict(sc, cfg={g: [list(s) for s in sc['cfg'][g]] for g in GROUPS})
+    for name, text in res:
+        ctx.violation('%s v%d %s' % (shape, sc['version'], name),
+                      '%s, protocol %d, listeners %s (X! = raises '
+                      'IgnorePacket, X/d = calls connection.disconnect(), '
+                      'X/D = calls disconnect(immediate=True), each for the '
+                      'primary packet P* only): %s'
+                      % (x_describe(sc), sc['version'],
+                         x_show_cfg(sc['cfg']), text), case)
+    return res
+
+
+def x_alph(filters, actions):
+    return tuple((f, a) for f in filters for a in actions)
+
+
+def xa_configurations(tier, v):
+    """Incoming listeners with actions, at least one of them disconnecting;
+    outgoing listeners plain."""
+    big = tier == 'thorough'
+    alph = x_alph(FILTERS if big else X_FILTERS, ACTIONS)
+    one = opt(alph)
+    wide = big or v == 757
+    outs = [(), (X_PLAIN,)] if wide else [(X_PLAIN,)]
+    out = set()
+
+    def disc(specs):
+        return any(s[1] in ('disc', 'disc_now') for s in specs)
+    for a, b in itertools.product(one, one):
+        if disc(a + b):
+            for o in outs:
+                out.add((a, b, o, o))
+    if wide:
+        for gi in (0, 1):
+            for pr in itertools.product(alph, alph):
+                if disc(pr):
+                    for sur in ((), (X_PLAIN,)):
+                        c = [sur] * 4
+                        c[gi] = pr
+                        out.add(tuple(c))
+    return out
+
+
+def xc_configurations(tier, v):
+    """Outgoing listeners plain or ignoring; incoming listeners plain."""
+    big = tier == 'thorough'
+    alph = x_alph(FILTERS if big else X_FILTERS, ('-', 'ign'))
+    one = opt(alph)
+    wide = big or v == 757
+    ins = [(), (X_PLAIN,)] if wide else [(X_PLAIN,)]
+    out = set()
+    for a, b in itertools.product(one, one):
+        for i in ins:
+            out.add((i, i, a, b))
+    if wide:
+        for gi in (2, 3):
+            for pr in itertools.product(alph, alph):
+                for sur in ((), (X_PLAIN,)):
+                    c = [sur] * 4
+                    c[gi] = pr
+                    out.add(tuple(c))
+    return out
+
+
+def w_xchunk(ctx, task):
+    base, cfgs = task
+    for t in cfgs:
+        run_x(ctx, dict(base, cfg=as_cfg(t)))
+
+
+def x_tasks(ctx, rng):
+    tasks, counts = [], {}
+    for v in VERSIONS:
+        xa = sorted(xa_configurations(ctx.tier, v))
+        xc = sorted(xc_configurations(ctx.tier, v))
+        counts[str(v)] = {'xa': len(xa), 'xc': len(xc)}
+        rng.shuffle(xa)
+        rng.shuffle(xc)
+        for stim, delivery in XA_SHAPES:
+            base = {'family': 'xa', 'version': v, 'seed': ctx.seed,
+                    'stim': stim, 'delivery': delivery}
+            for i in range(0, len(xa), 40):
+                tasks.append((base, xa[i:i + 40]))
+        for hist, k, env in XC_SHAPES:
+            base = {'family': 'xc', 'version': v, 'seed': ctx.seed,
+                    'hist': hist, 'kick': k, 'env': env}
+            for i in range(0, len(xc), 40):
+                tasks.append((base, xc[i:i + 40]))
+    return tasks, counts
+
+
+# ---------------------------------------------------------------------------
 # two user threads register concurrently: schedule exploration
 
 CANON = statehash.Canon(REPO, (__file__,))
@@ -1017,6 +1670,177 @@ def explore_races(ctx, ex):
 
 
 # ---------------------------------------------------------------------------
+# a user thread calls disconnect() while the networking thread dispatches one
+# packet to an early and an ordinary listener: schedule exploration
+
+DISC_RUNS = (('keepalive', False), ('unknown', True),
+             ('keepalive', True), ('unknown', False))
+
+
+def disc_body(W, stim, immediate):
+    """Listeners E (early, concrete class of the stimulus), O (ordinary,
+    Packet), OE / OO (early / ordinary outgoing, Packet) on a connection in
+    the play state.  Window: the server's packet becomes readable and a user
+    thread calls disconnect(immediate); the networking thread is the other
+    agent."""
+    S = W.S
+    cl = classes()
+    real, rev = cl['real'], cl['rev']
+    W.serve(login=[('success',)])
+    conn = W.connection(allowed_versions={RACE_VERSION})
+
+    def pkey(p):
+        name = rev.get(type(p), '?' + type(p).__name__)
+        return (name, getattr(p, KEYFIELD.get(name, 'id'), None))
+
+    def make(tag):
+        def callback(packet):
+            S.event('L', tag, pkey(packet))
+        return callback
+    if stim == 'keepalive':
+        ev, key, first = ('keepalive', RACE_KA), ('cb.KeepAlive', RACE_KA), \
+            'cb.KeepAlive'
+    else:
+        ev, key, first = ('raw', UNKNOWN_IDS[0], b'\x01\x02\x03'), \
+            ('Packet', UNKNOWN_IDS[0]), 'Packet'
+    reply = ('sb.KeepAlive', RACE_KA)
+    conn.register_packet_listener(make('OO'), real['Packet'], outgoing=True)
+    conn.register_packet_listener(make('E'), real[first], early=True)
+    conn.register_packet_listener(make('OE'), real['Packet'], outgoing=True,
+                                  early=True)
+    conn.register_packet_listener(make('O'), real['Packet'])
+    conn.connect()
+    W.settle()
+    srv = W.servers[-1]
+    if srv.state != 'play' or \
+            type(conn.reactor).__name__ != 'PlayingReactor':
+        raise ToolError('disconnect-schedule set-up did not reach play: %r %r'
+                        % (srv.state, srv.errors))
+    vc = W.net.conns[-1]
+    base, rx0 = len(S.log), len(srv.play_rx)
+    results = []
+
+    def user():
+        S.event('D', 'call')
+        try:
+            conn.disconnect(immediate=immediate)
+            results.append('ok')
+        except Exception as e:
+            results.append(type(e).__name__)
+        S.event('D', 'ret')
+    S.state_fn = statehash.make_state_fn(W, CANON, [conn],
+                                         extra=lambda: tuple(results))
+    S.window = True
+    srv.play(ev)
+    end = vc.frame_ends[-1]
+    a = S.spawn(user, name='user')
+    S.join(a)
+    S.wait_quiescent()
+    S.window = False
+    W.settle()
+    # judge
+    viol = []
+    log = S.log[base:]
+    read = vc.consumed >= end
+    pos = {}
+    calls = {key: [], reply: []}
+    sends = []
+    for i, e in enumerate(log):
+        if e[0] == 'L':
+            calls.setdefault(e[2], []).append(e[1])
+            pos.setdefault((e[1], e[2]), i)
+        elif e[0] == 'D':
+            pos[e[1]] = i
+        elif e[0] == 'send' and e[1] == vc.id:
+            sends.append(i)
+    want = ['E', 'O'] if read else []
+    if calls[key] != want:
+        viol.append((
+            'call-order' if sorted(calls[key]) == sorted(want)
+            else 'call-set',
+            'a user thread calls disconnect(immediate=%r) while packet %r '
+            'is on its way; the client %s: the early listener E and the '
+            'ordinary listener O are owed %s (nobody signalled ignore); '
+            'calls observed: %r'
+            % (immediate, key, 'has read the whole packet' if read
+               else 'never read the packet completely',
+               'one call each, E first' if read else 'nothing', calls[key])))
+    complete = reply in [('sb.KeepAlive', r[1]) for r in srv.play_rx[rx0:]
+                         if r[0] == 'keepalive']
+    got = calls[reply]
+    pe, po = pos.get(('OE', reply)), pos.get(('OO', reply))
+    if complete:
+        ok = got == ['OE', 'OO'] and sends and pe < min(sends) \
+            and max(sends) < po
+    else:
+        ok = got in ([], ['OE']) and (not sends or (
+            pe is not None and pe < min(sends)))
+    if not ok:
+        viol.append(('outgoing', 'reply %r %s; its early outgoing listener '
+                     'OE is owed at most one call before the first byte, its '
+                     'ordinary outgoing listener OO one call after the last '
+                     'byte if and only if it was written; observed calls %r, '
+                     'log positions OE=%r sends=%r OO=%r'
+                     % (reply, 'was written completely' if complete
+                        else 'was not written completely', got, pe, sends,
+                        po)))
+    others = sorted(k for k in calls if k not in (key, reply))
+    if others or srv.errors:
+        viol.append(('unexpected-packet', 'listener calls for %r / server '
+                     'errors %r' % (others, srv.errors)))
+    if calls[key] != want:
+        when = 'dispatch wrong'
+    elif read:
+        pe_, po_, dr = pos[('E', key)], pos[('O', key)], pos['ret']
+        when = 'disconnect returned before E' if dr < pe_ else \
+            'mid-dispatch: disconnect returned between E and O' \
+            if dr < po_ else 'disconnect returned after O' \
+            if pos['call'] > po_ else 'disconnect overlaps O'
+    else:
+        when = 'packet never read'
+    # (a disconnect() that raises is recorded, not judged: C14)
+    outcome = (when, tuple(calls[key]), tuple(got), complete) + (
+        () if results == ['ok'] else ('disconnect() raised', tuple(results)))
+    return {'outcome': repr(outcome), 'violations': viol}
+
+
+def disc_factory(params):
+    harness.setup()
+    stim, immediate = params['stim'], bool(params['immediate'])
+
+    def scenario(prefix, expect, visited=None, budget=0):
+        return harness.run(lambda W: disc_body(W, stim, immediate), prefix,
+                           tracing=True, expect=expect, horizon=30000,
+                           visited=visited,
+                           budget=budget if budget != 'replay' else 0,
+                           lenient=budget == 'replay')
+    return scenario
+
+
+def explore_disconnects(ctx, ex):
+    bound = 2 if ctx.thorough else 1
+    for stim, immediate in DISC_RUNS:
+        params = {'stim': stim, 'immediate': immediate}
+        label = 'disconnect(%s) during %s ' % (
+            'immediate' if immediate else 'flush', stim)
+        res = ex.explore(ctx, disc_factory, params, bound, label=label)
+        ctx.extra[label.strip()] = {
+            'preemption_bound': bound, 'complete_executions': res.execs,
+            'executions_cut_at_a_visited_state': res.pruned,
+            'distinct_outcomes': len(res.outcomes),
+            'executions_with_preemption': res.with_pre}
+        if res.violations:
+            continue
+        for need in ('mid-dispatch', 'never read'):
+            if not any(need in o for o in res.outcomes):
+                raise ToolError('vacuous exploration: %s has no schedule '
+                                'with outcome %r: %r'
+                                % (label, need, sorted(res.outcomes)))
+        ctx.cls('%sbound=%d: schedules with the disconnect mid-dispatch '
+                'and with the packet never read' % (label, bound))
+
+
+# ---------------------------------------------------------------------------
 # enumeration
 
 def opt(items):
@@ -1177,6 +2001,7 @@ def run(ctx):
     ex = explore.Explorer()
     try:
         explore_races(ctx, ex)
+        explore_disconnects(ctx, ex)
     finally:
         ex.close()
     from vf.runner import use_repo
@@ -1203,10 +2028,28 @@ def run(ctx):
             for i in range(0, len(use), 40):
                 tasks.append((v, kind, ctx.seed, use[i:i + 40]))
     rng.shuffle(tasks)
+    xtasks, xcounts = x_tasks(ctx, rng)
+    rng.shuffle(xtasks)
     ctx.extra['configurations_per_version'] = per_version
     ctx.extra['late_configurations_per_version'] = late_per_version
     ctx.extra['histories'] = list(KINDS)
+    ctx.extra['x_configurations_per_version'] = xcounts
+    ctx.extra['x_histories'] = {
+        'xa': ['%s/%s' % sd for sd in XA_SHAPES],
+        'xc': ['%s kick=%d %s' % h for h in XC_SHAPES]}
     ctx.pmap(w_chunk, tasks)
+    ctx.pmap(w_xchunk, xtasks)
+    xf = {k[6:]: ctx.extra.pop(k) for k in sorted(ctx.extra)
+          if k.startswith('xfact ')}
+    ctx.extra['x_classes'] = xf
+    for v in VERSIONS:
+        ctx.cls('v%d x histories' % v, sum(
+            n for k, n in xf.items() if k[4:].startswith('v%d ' % v)))
+    for need in X_NEED:
+        if need in xf:
+            ctx.cls(need, xf[need])
+        elif not ctx.violations:
+            raise ToolError('vacuous: no x history shows %r' % need)
     ctx.sample({'history': 'keepalive', 'version': 757,
                 'listeners': 'ie=[P!,C] io=[P] oe=[P] oo=[P]',
                 'expect': 'ie0 only; no reply on the wire; second '
@@ -1225,7 +2068,8 @@ def run(ctx):
 
 def replay_schedule(ctx, case):
     harness.setup()
-    scenario = race_factory(case['params'])
+    disc = 'stim' in case['params']
+    scenario = (disc_factory if disc else race_factory)(case['params'])
     x = scenario(list(case['choices']), None, None, 'replay')
     if getattr(x, 'diverged', False):
         print('  note: the recorded schedule cannot be followed on this tree '
@@ -1237,6 +2081,11 @@ def replay_schedule(ctx, case):
     if x.failure is not None:
         viol.append((x.failure[0], '%s: %s' % x.failure))
     for key, what in viol:
+        if disc:
+            ctx.violation('disconnect(%s) during %s %s' % (
+                'immediate' if case['params']['immediate'] else 'flush',
+                case['params']['stim'], key), what, case)
+            continue
         ctx.violation('race %s/%s %s %s' % (
             case['params']['a'], case['params']['b'],
             case['params'].get('when', 'play'), key), what, case)
@@ -1245,6 +2094,13 @@ def replay_schedule(ctx, case):
 def replay(ctx, case):
     if 'params' in case:
         return replay_schedule(ctx, case)
+    if case.get('family') in ('xa', 'xc'):
+        sc = {k: case[k] for k in case if k != 'cfg'}
+        for k in ('version', 'seed', 'kick'):
+            if k in sc:
+                sc[k] = int(sc[k])
+        sc['cfg'] = {g: [tuple(s) for s in case['cfg'][g]] for g in GROUPS}
+        return run_x(ctx, sc)
     cfg = {g: tuple((str(s[0]), bool(s[1]))
                     + ((is_late(s),) if len(s) > 2 else ())
                     + ((int(s[3]),) if len(s) > 3 and s[3] is not None
